@@ -6,7 +6,7 @@ from ..refmodel import RefModel
 
 PROP = "C20"
 BUDGET = {"quick": 400, "thorough": 10000}
-ALARM_S = 1200
+ALARM_S = 300
 RULE = ("catalogue and bounded random models x theta x observation sets x observed-state selections in any order x weights "
         "(square loss) x target_param subsets x I-seam policy; jtj against the sum of outer products of the weighted "
         "reference sensitivities (+ symmetry, PSD); hessian against the true second-order reference system, and, for models "
